@@ -484,7 +484,7 @@ def emit_toml(doc, rng):
 EMIT = {"json": emit_json, "yaml": emit_yaml, "toml": emit_toml}
 
 
-def decode_one(fmt, b):
+def decode_one(fmt, b, variant=False):
     """The independent decoder for an include type: one document or Undecodable /
     Outside.  YAML: the YAML 1.1 and the YAML 1.2 core-schema reading must agree,
     otherwise the text is outside the subset on which decoders agree."""
@@ -495,15 +495,20 @@ def decode_one(fmt, b):
             raise D.Undecodable("json: not UTF-8")
         if text.startswith("\ufeff"):
             raise Outside("byte order mark")
-        o = D.decode_json(b)
+        try:
+            o = D.decode_json(b)
+        except D.Undecodable as e:
+            if "duplicate key" in str(e):
+                raise Outside("duplicate key")
+            raise
         if re.search(r"(?<![0-9.eE+])-0(?![0-9.eE])", text):
             raise Outside("negative zero integer")
-        _finite(o)
+        _finite(o, variant)
         return o
     if fmt == "toml":
         o = D.decode_toml(b)
         if not re.search(rb"inf|nan", b):
-            _finite(o)          # a float spelling beyond the f64 range: readers differ (inf / error)
+            _finite(o, variant)          # a float spelling beyond the f64 range: readers differ (inf / error)
         return o
     if fmt == "yaml":
         yaml, Core12, Unique = D._yaml_mod()
@@ -523,15 +528,31 @@ def decode_one(fmt, b):
                         raise Outside("number with leading zeros")
                     if ev.value == "<<":
                         raise Outside("merge key")
-        except yaml.YAMLError as e:
-            if "'\\t' that cannot start any token" in str(e):
+        except (yaml.YAMLError, ValueError, OverflowError) as e:   # ValueError: a \U escape beyond U+10FFFF
+            msg = str(e).replace("\n", " ")[:200]
+            if "'\\t'" in msg:
                 raise Outside("tab where PyYAML refuses one (YAML allows tabs as separation space)")
-            raise D.Undecodable("yaml: " + str(e).replace("\n", " ")[:200])
+            # "malformed" = rejected by both YAML readers at hand.  Where the libyaml
+            # reference parser accepts what PyYAML's own parser refuses (a comment glued
+            # to a block scalar header, ...) the readers disagree: not judged.
+            cl = getattr(yaml, "CSafeLoader", None)
+            if cl is not None:
+                try:
+                    for _ in yaml.parse(text, Loader=cl):
+                        pass
+                    raise Outside("PyYAML's parser rejects, the libyaml reference parser accepts")
+                except yaml.YAMLError:
+                    pass
+                except (ValueError, OverflowError):
+                    pass
+            raise D.Undecodable("yaml: " + msg)
         res = []
         for loader in (Core12, Unique):
             try:
                 res.append(("ok", yaml.load(text, Loader=loader)))
             except Exception as e:
+                if "unhashable key" in str(e) or "duplicate key" in str(e):
+                    raise Outside("duplicate or non-scalar mapping key")
                 res.append(("err", str(e).replace("\n", " ")[:200]))
         if res[0][0] == "err" and res[1][0] == "err":
             raise D.Undecodable("yaml: " + res[0][1])
@@ -543,21 +564,38 @@ def decode_one(fmt, b):
             same = False
         if not same:
             raise Outside("YAML 1.1 and 1.2 readings differ")
+        cl = getattr(yaml, "CSafeLoader", None)
+        if variant and cl is not None:
+            # a damaged text that PyYAML still reads must also be read, and read alike,
+            # by the libyaml reference parser; else the readers disagree (e.g. a tab in
+            # the indentation of a block scalar)
+            try:
+                third = yaml.load(text, Loader=cl)
+            except Exception:
+                raise Outside("PyYAML's parser accepts, the libyaml reference parser rejects")
+            try:
+                same3 = py_same(third, res[1][1])
+            except Exception:
+                same3 = False
+            if not same3:
+                raise Outside("PyYAML and libyaml read different documents")
         if not re.search(r"\.(?:inf|Inf|INF|nan|NaN|NAN)", text):
-            _finite(res[0][1])
+            _finite(res[0][1], variant)
         return res[0][1]
     raise C.ToolError("no decoder for %s" % fmt)
 
 
-def _finite(o):
+def _finite(o, edge=False):
     if isinstance(o, float) and not math.isfinite(o):
         raise Outside("float spelling beyond the f64 range")
+    if edge and isinstance(o, float) and abs(o) == 1.7976931348623157e308:
+        raise Outside("float spelling at the very edge of the f64 range")
     if isinstance(o, list):
         for x in o:
-            _finite(x)
+            _finite(x, edge)
     if isinstance(o, dict):
         for x in o.values():
-            _finite(x)
+            _finite(x, edge)
 
 
 def corrupt(b, rng):
@@ -578,7 +616,8 @@ def corrupt(b, rng):
     else:
         q = min(len(b), p + rng.randrange(1, 8))
         out.append(("duplicated", b[:q] + b[p:q] + b[q:]))
-    return [(k, v) for k, v in out if v != b]
+    # an emptied file is the "empty" row of the include table, not a damaged document
+    return [(k, v) for k, v in out if v != b and v.strip()]
 
 
 # ---------------------------------------------------------------------------
@@ -654,7 +693,7 @@ def work(h, chunk):
                         absolute=rng.random() < 0.2)
                     for kind, bad in corrupt(data, rng):
                         try:
-                            o = decode_one(fmt, bad)
+                            o = decode_one(fmt, bad, variant=True)
                             wv = py_to_val(o)
                             if fmt == "toml" and not _toml_domain(o):
                                 raise Outside("datetime")
@@ -830,29 +869,39 @@ CORE = ["null", "true", "i_pos", "f_f15", "s_plain"]
 
 
 def configs(tier, gd):
+    from .c03 import sim_configs
     rare = [x for x in D.ALL_LEAVES if x not in CORE and x != "con"]
+    pool = [x for x in D.ALL_LEAVES if x != "con"]
+    shape_core = ["i_pos", "s_uni"]
+    shape_rare = ["null", "elist", "etuple", "f_f1e20", "i_min"]
     runs = []
     if tier == "quick":
         D.write_cfg(gd, "mc_leaf", 3, 3, 3, 1, CORE, rare, INVS)
         runs.append(("mc", "mc_leaf", None, None,
                      "exhaustive: documents of <=3 nodes, 5 core leaf classes + <=1 of the 26 other leaf classes"))
-        D.write_cfg(gd, "mc_shape", 3, 3, 5, 1, ["i_pos", "s_uni"], ["null", "elist", "etuple", "f_f1e20", "i_min"], INVS)
+        D.write_cfg(gd, "mc_shape", 3, 3, 4, 1, shape_core, shape_rare, INVS)
         runs.append(("mc", "mc_shape", None, None,
-                     "exhaustive: documents of <=5 nodes, depth <=3, <=3 children, leaves {int, non-ASCII string} + "
+                     "exhaustive: documents of <=4 nodes, depth <=3, <=3 children, leaves {int, non-ASCII string} + "
                      "<=1 of {null, [], {}, 1e20, i64::MIN}"))
-        D.write_cfg(gd, "sim", 5, 4, 12, 4, CORE, rare, INVS)
-        runs.append(("sim", "sim", 60, 60, "simulation: documents of <=12 nodes, depth <=5"))
+        runs += sim_configs(gd, 2, 25, 12, C.seed(), pool, INVS)
     else:
         D.write_cfg(gd, "mc_leaf", 3, 3, 4, 1, CORE, rare, INVS)
         runs.append(("mc", "mc_leaf", None, None,
                      "exhaustive: documents of <=4 nodes, depth <=3, 5 core leaf classes + <=1 of the 26 other leaf classes"))
-        D.write_cfg(gd, "mc_shape", 4, 3, 6, 1, ["i_pos", "s_uni"], ["null", "elist", "etuple", "f_f1e20", "i_min"], INVS)
+        D.write_cfg(gd, "mc_shape", 4, 3, 5, 1, shape_core, shape_rare, INVS)
         runs.append(("mc", "mc_shape", None, None,
-                     "exhaustive: documents of <=6 nodes, depth <=4, <=3 children, leaves {int, non-ASCII string} + "
+                     "exhaustive: documents of <=5 nodes, depth <=4, <=3 children, leaves {int, non-ASCII string} + "
                      "<=1 of {null, [], {}, 1e20, i64::MIN}"))
-        D.write_cfg(gd, "sim", 5, 4, 14, 5, CORE, rare, INVS)
-        runs.append(("sim", "sim", 6000, 80, "simulation: documents of <=14 nodes, depth <=5"))
+        runs += sim_configs(gd, 8, 400, 14, C.seed(), pool, INVS)
     return runs
+
+
+def _by_depth(docs):
+    h = {}
+    for o in docs:
+        k = str(D.depth_of(o["value"]))
+        h[k] = h.get(k, 0) + 1
+    return dict(sorted(h.items()))
 
 
 def do_replay(hp, path):
@@ -988,6 +1037,7 @@ def main(tier, replay=None):
                 "distinct abstract document with >= 2 nodes",
         "samples": samples,
         "abstract_documents": len(docs),
+        "abstract_documents_by_depth": _by_depth(docs),
         "includes_by_type_and_content": {"%s/%s" % k: v for k, v in sorted(by.items())},
         "variants_outside_agreed_subset_not_judged": outside,
         "known_deviation_cases": devcount,
@@ -1007,6 +1057,8 @@ def main(tier, replay=None):
             "integers within i64, no `-0` integer, no float spelling beyond the f64 range, no TOML datetimes, YAML scalars "
             "on which the YAML 1.1 and 1.2 schemas agree; damaged variants outside it are counted, not judged",
             "`include str` of a file that is not UTF-8 has no text to preserve: either outcome accepted",
+            "a damaged YAML file counts as malformed when PyYAML's pure-Python parser AND (where installed) the libyaml "
+            "reference parser reject it; where the two disagree the variant is counted as outside the agreed subset",
             "file names are ASCII (non-ASCII string literals are C11's subject)",
         ])
     return code
